@@ -7,7 +7,11 @@ nodal / elemental variables of arbitrary width, any float64 values) ->
   (b) the real reader's result on that file is compared with the model reader `Femio.Ucd.read` run on the same text
       (ids, storage order, per-type blocks, variables, values by bit pattern).
 Oracle: real write -> real read -> bitwise equality by id, same types / connectivity (tet2 -> corner tet), same
-variables.  Variables whose own id order differs from the mesh's (DESIGN section 5, F9) are a separate labelled stream.
+variables.  Variables whose own id order differs from the mesh's (DESIGN section 5, F9: fixed in the tree, the writer
+binds rows to ids) are inside the oracle: stream `own-id-order` gives every variable a private row order (mesh order,
+ascending, descending, reversed, rolled, shuffled), with two or more nodal and / or elemental variables carrying
+DIFFERENT private orders, and demands the values read back under every id to be bit-identical to the variable's own
+row for that id.  The correspondence (model writer Cfg.fixed = rows looked up by id per variable) runs on it as well.
 """
 import math
 import struct
@@ -35,10 +39,13 @@ RULE = ('random combinatorial mesh (1-3 element types out of line, spring, tri, 
         'nodal_data.pop) x 0-4 elemental variables (attached through update_data or generate_elemental_attribute) of widths '
         '1-9 x float64 values drawn from small integers, dyadic rationals, decimals, NaN, +-0.0, denormals, 1e+-300, '
         'DBL_MAX, +-inf and uniformly random bit patterns, in coordinates too; distinct = distinct (mesh, variables, values); '
-        'non-trivial = at least 2 elements and at least one variable besides NODE')
+        'non-trivial = at least 2 elements and at least one variable besides NODE. Stream own-id-order: the same meshes, '
+        'every variable stored in a private id order drawn from {mesh order, ascending, descending, reversed mesh order, '
+        'rolled, shuffled}, 2-4 variables in at least one of the two families (nodal / elemental); non-trivial = some '
+        'family holds two variables whose orders differ from the mesh order and from each other')
 ASSUMPTIONS = [
-    'variables are aligned with the mesh (rows of a nodal variable are those of nodes.ids, rows of an elemental variable '
-    'those of elements.ids) - femio\'s library-wide convention; misaligned variables (F9) are a separate labelled stream',
+    'the ids of a nodal (elemental) variable are a permutation of the mesh\'s node (element) ids; the row order of each '
+    'variable is its own (aligned with the mesh in the main stream, private per variable in the stream own-id-order)',
     'variable names are identifiers without comma or blank; NaNs are compared as NaN (one token; sign / payload of a NaN '
     'are not representable in the text format)',
     'node and element ids are positive integers below 2**53 (the reader converts ids through float)',
@@ -93,8 +100,28 @@ def rand_names(rnd, k, taken=()):
     return out
 
 
-def gen_case(rnd, misaligned=False):
-    """-> JSON-able description from which `build` makes the FEMData"""
+ORDER_CLASSES = ['mesh', 'asc', 'desc', 'reversed', 'rolled', 'shuffled', 'shuffled']
+
+
+def private_order(rnd, ids, cls):
+    ids = list(ids)
+    if cls == 'asc':
+        return sorted(ids)
+    if cls == 'desc':
+        return sorted(ids, reverse=True)
+    if cls == 'reversed':
+        return ids[::-1]
+    if cls == 'rolled' and len(ids) > 1:
+        k = rnd.randrange(1, len(ids))
+        return ids[k:] + ids[:k]
+    if cls == 'shuffled':
+        rnd.shuffle(ids)
+    return ids
+
+
+def gen_case(rnd, own_orders=False):
+    """-> JSON-able description from which `build` makes the FEMData; own_orders: every variable keeps its rows in a
+    private id order, and at least one family (nodal / elemental) has two or more variables"""
     r = rnd.random()
     if r < .12:
         types = ['tet', 'tet2']
@@ -103,6 +130,10 @@ def gen_case(rnd, misaligned=False):
     else:
         types = rnd.sample(UCD_TYPES, rnd.randint(2, 3))
     m = G.gen_combinatorial(rnd, types=types, max_elems=max(len(types), rnd.choice([1, 3, 6, 12])))
+    for _ in range(20 if own_orders else 0):      # private orders need a few rows to differ from each other
+        if sum(len(b) for b in m['blocks'].values()) >= 4:
+            break
+        m = G.gen_combinatorial(rnd, types=types, max_elems=max(len(types), rnd.choice([6, 9, 12])))
     sp = rnd.choice([0, .05, .3])
     nodes = [[i, [rand_float(rnd, sp) if sp else float(v) for v in p]] for i, p in m['nodes']]
     nids = [i for i, _ in nodes]
@@ -113,18 +144,20 @@ def gen_case(rnd, misaligned=False):
         eids.sort()
     n_nv = rnd.choice([0, 0, 1, 2, 3, 4])
     n_ev = rnd.choice([0, 1, 1, 2, 3, 4])
+    if own_orders:
+        n_nv, n_ev = rnd.choice([(2, 0), (0, 2), (2, 2), (3, 1), (1, 3), (4, 2), (2, 4), (3, 3)])
     pop_node = n_nv == 0 and rnd.random() < .6
     widths = [1, 1, 3, 3, 6, 2, 4, 5, 7, 9]
 
     def var(name, ids, how):
         w = rnd.choice(widths)
         own = list(ids)
-        if misaligned:
-            while own == list(ids) and len(ids) > 1:
-                rnd.shuffle(own)
+        if own_orders:
+            own = private_order(rnd, ids, rnd.choice(ORDER_CLASSES))
         return {'name': name, 'ids': own, 'how': how, 'data': [[rand_float(rnd) for _ in range(w)] for _ in own]}
     nv = [var(n, nids, 'update_data') for n in rand_names(rnd, n_nv)]
-    ev = [var(n, eids, rnd.choice(['update_data', 'generate'])) for n in rand_names(rnd, n_ev)]
+    ev = [var(n, eids, rnd.choice(['update_data', 'update_data', 'generate'] if own_orders else ['update_data', 'generate']))
+          for n in rand_names(rnd, n_ev)]
     return {'nodes': nodes, 'blocks': blocks, 'nodal_vars': nv, 'elem_vars': ev, 'pop_node': pop_node,
             'kind': m['kind'], 'order': m['order'], 'id_style': m['id_style']}
 
@@ -318,8 +351,8 @@ def oracle(ctx, case, report):
                 if own != mesh_ids[key] and sorted(own) == sorted(mesh_ids[key]):
                     report(f'positional-binding:{key}:{v["how"]}',
                            f'{key} variable {v["name"]!r} (attached with {v["how"]}; its own id order {own[:4]}.. differs from '
-                           f'the mesh\'s {mesh_ids[key][:4]}..) is written positionally: the value read under id {bad[0]} '
-                           f'belongs to another id', {'variable': v['name'], 'ids': bad, 'read': [got.get(i) for i in bad],
+                           f'the mesh\'s {mesh_ids[key][:4]}..) is not written by id: the value read back under id {bad[0]} '
+                           f'is not the value the variable holds for that id', {'variable': v['name'], 'ids': bad, 'read': [got.get(i) for i in bad],
                                                       'written': [want[i] for i in bad], 'variable_ids': own[:6],
                                                       'mesh_ids': mesh_ids[key][:6]})
                 else:
@@ -336,12 +369,10 @@ CFGS = {'fixed': 1, 'upstream': 0}
 
 
 def run_case(ctx, case, cfg_mismatch, stream='main'):
-    main = stream == 'main'
-
+    # both streams (main, own-id-order) are inside the property's quantifier: failures are reported through ctx.fail
     def report(sig, what, observed):
-        if main:
-            ctx.fail(sig, what, to_json(case), observed)
-        else:
+        ctx.fail(sig, what, to_json(case), observed)
+        if stream != 'main':
             ctx.count(f'{stream}: {sig}')
     fd, text, obs = oracle(ctx, case, report)
     if ctx.driver is None or text is None:
@@ -378,6 +409,20 @@ def run_case(ctx, case, cfg_mismatch, stream='main'):
             break
 
 
+def own_order_families(case):
+    """per family: number of distinct row orders (as they are in the built FEMData: generate_elemental_attribute sorts)
+    that differ from the mesh order"""
+    nids = [i for i, _ in case['nodes']]
+    eids = [e for b in case['blocks'].values() for e, _ in b]
+    if len(case['blocks']) > 1:
+        eids.sort()
+    out = {}
+    for key, vars_, mesh in (('nodal', case['nodal_vars'], nids), ('elemental', case['elem_vars'], eids)):
+        orders = {tuple(sorted(v['ids']) if v['how'] == 'generate' else v['ids']) for v in vars_}
+        out[key] = len(orders - {tuple(mesh)})
+    return out
+
+
 def run(ctx):
     n_cases = ctx.n(220, 2500) if ctx.driver is not None else ctx.n(400, 3000)
     cfg_mismatch = {c: [] for c in CFGS}
@@ -410,14 +455,18 @@ def run(ctx):
         ctx.count('values:|x|>=1e300', sum(1 for x in vals if x == x and not math.isinf(x) and abs(x) >= 1e300))
         ctx.count('values:total', len(vals))
         run_case(ctx, case, cfg_mismatch)
-    # separate labelled stream (DESIGN section 5, F9): variables whose own id order differs from the mesh's.
-    # Classified as outside the quantifier (see findings/C04-misaligned-variable-order.md); never reported via fail.
-    for k in range(ctx.n(25, 200)):
-        case = gen_case(ctx.rng, misaligned=True)
-        if not (case['nodal_vars'] or case['elem_vars']):
-            continue
-        ctx.count('stream F9-misaligned: cases')
-        run_case(ctx, case, cfg_mismatch, stream='stream F9-misaligned')
+    # stream own-id-order (DESIGN section 5, F9 - fixed in the tree: the writer binds rows to ids): every variable keeps its
+    # rows in a private id order; part of the property oracle (values read back are bound to the same ids, bit-identical)
+    for k in range(ctx.n(90, 700) if ctx.driver is not None else ctx.n(160, 900)):
+        case = gen_case(ctx.rng, own_orders=True)
+        fams = own_order_families(case)
+        ctx.case(('own-id-order', str(to_json(case))), sample=None, nontrivial=any(n >= 2 for n in fams.values()))
+        ctx.count('own-id-order: cases')
+        for key, n in fams.items():
+            ctx.count(f'own-id-order: {key} variables with distinct private orders != mesh order: {min(n, 3)}{"+" if n >= 3 else ""}')
+        for v in case['nodal_vars'] + case['elem_vars']:
+            ctx.count('own-id-order: attached by ' + v['how'])
+        run_case(ctx, case, cfg_mismatch, stream='own-id-order')
     if ctx.driver is not None:
         agree = [c for c in CFGS if not cfg_mismatch[c]]
         ctx.extra['cfg_detected'] = agree
